@@ -37,8 +37,8 @@ def mapWriteBack (cfg : GenCfg) (iptr kptr : Bool) (mv : Node) (v : Val) (isNil 
     else ⟨rewrap (store r.v), .ret⟩
   | .ret | .err =>
     if isNil then ⟨v, r.flow⟩
-    else if mapValIsRef mv && present.isSome then ⟨rewrap (store r.v), r.flow⟩
-    else if !cfg.setLostUpdate && !(r.v == x) then ⟨rewrap (store r.v), r.flow⟩
+    else if mapValIsRef mv && present.isSome && !(cfg.setLostUpdate && isNilColl x) then ⟨rewrap (store r.v), r.flow⟩
+    else if !cfg.setLostUpdate && (writesBack mv || !(r.v == x)) then ⟨rewrap (store r.v), r.flow⟩
     else if present.isSome then
       ⟨rewrap (store (staleView (if noBuf && src.kind.family != .text then renderPieces src else []) x r.v)), r.flow⟩
     else ⟨v, r.flow⟩
@@ -77,7 +77,11 @@ theorem mapWriteBack_fixed (iptr kptr : Bool) (mv : Node) (v : Val) (isNil : Boo
       · split
         · exact ⟨by simp, Or.inl rfl⟩
         · rename_i _ heq
-          have hxe : r.v = x := by simpa using heq
+          have hxe : r.v = x := by
+            have h2 : (writesBack mv || !(r.v == x)) = false := by simpa using heq
+            have h3 : (!(r.v == x)) = false := by
+              cases hb : writesBack mv <;> simp [hb] at h2 ⊢ <;> simpa using h2
+            simpa using h3
           split
           · refine ⟨by simp, Or.inl ?_⟩
             rw [hxe, staleView_self]
@@ -94,7 +98,11 @@ theorem mapWriteBack_fixed (iptr kptr : Bool) (mv : Node) (v : Val) (isNil : Boo
       · split
         · exact ⟨by simp, Or.inl rfl⟩
         · rename_i _ heq
-          have hxe : r.v = x := by simpa using heq
+          have hxe : r.v = x := by
+            have h2 : (writesBack mv || !(r.v == x)) = false := by simpa using heq
+            have h3 : (!(r.v == x)) = false := by
+              cases hb : writesBack mv <;> simp [hb] at h2 ⊢ <;> simpa using h2
+            simpa using h3
           split
           · refine ⟨by simp, Or.inl ?_⟩
             rw [hxe, staleView_self]
@@ -515,11 +523,11 @@ theorem setN_frame (src : Src) (nb : Bool) (p : List Seg) : ∀ (n : Node) (v : 
                 cases hfl : r.flow with
                 | cont => exact tail _ (by simp)
                 | ret =>
-                  have hcfg : GenCfg.fixed.setLostUpdate = false := rfl
+                  have hcfg : GenCfg.fixed.setScalarElemLost = false := rfl
                   simp only [hcfg, Bool.not_false, Bool.or_true, if_true]
                   exact tail _ (by simp)
                 | err =>
-                  have hcfg : GenCfg.fixed.setLostUpdate = false := rfl
+                  have hcfg : GenCfg.fixed.setScalarElemLost = false := rfl
                   simp only [hcfg, Bool.not_false, Bool.or_true, if_true]
                   exact tail _ (by simp)
                 | panic => exact absurd hfl h1
